@@ -183,7 +183,7 @@ func runHistory(h *historyT, drv *hx.Driver, st *stepStats, fpCheck bool) (*divT
 	if !h.Nil {
 		cache = graphql.NewPlanCache(graphql.PlanCacheOptions{MaxEntries: h.MaxEntries, MaxQueryBytes: h.MaxBytes, Normalize: norm})
 	}
-	compareJSON := h.Mode != "norm-any"
+	compareJSON := true // since the repairs of D-06b…g every mode is compared with graphql.Do
 	pool := make([]string, len(h.Pool))
 	for i, p := range h.Pool {
 		pool[i] = unhex(p)
@@ -775,9 +775,9 @@ func main() {
 		return
 	}
 	defer drv.Close()
-	run.Res.Rule = "histories of Get / ExecutePlan / Reset / schema replacement (two slots, same shape, new pointer per replacement) over a pool of 6-30 requests drawn as near-miss pairs from nine families (one literal, one alias, argument order/name, operation names, text imitating the key encodings incl. \\x00 and multi-byte, variables + dynamic directives, object/list/interface/union/fragment shapes, rejected requests, normaliser-unsafe shapes), caps {1,2,3,5,default}, MaxQueryBytes {default,40,64} with over-size and at-limit twins, nil cache 1/25; modes raw 60% / norm-safe 20% / norm-any 20%; non-trivial = the history has a hit and at least one of eviction, schema-guard miss, reset, bypass, re-execution of a stale plan; distinct by the whole history"
+	run.Res.Rule = "histories of Get / ExecutePlan / Reset / schema replacement (two slots, same shape, new pointer per replacement) over a pool of 6-30 requests drawn as near-miss pairs from nine families (one literal, one alias, argument order/name, operation names, text imitating the key encodings incl. \\x00 and multi-byte, variables + dynamic directives, object/list/interface/union/fragment shapes, rejected requests, formerly normaliser-unsafe shapes D-06b…g), caps {1,2,3,5,default}, MaxQueryBytes {default,40,64} with over-size and at-limit twins, nil cache 1/25; modes raw 60% / Normalize=true 40% (norm-safe, norm-any = with adversarial operation names); non-trivial = the history has a hit and at least one of eviction, schema-guard miss, reset, bypass, re-execution of a stale plan; distinct by the whole history"
 	run.Res.Assumptions = []string{
-		"Normalize=true is compared with graphql.Do on every history (modes norm-safe and norm-any draw from the same pool since the repairs of D-06b…g; norm-any additionally skips the response comparison and checks only the model correspondence, document immutability, SynthArgs ownership and the fingerprint model)",
+		"Normalize=true is compared with graphql.Do on every history and every pool (the shapes that exhibited D-06b…g are part of the pool since their repair); mode norm-any differs from norm-safe only by also drawing adversarial operation names",
 		"the response comparison is byte equality of json.Marshal(result) (data and errors with messages, locations, paths) between ExecutePlan(plan from the cache, args ∪ SynthArgs) and graphql.Do on the same schema object",
 	}
 
